@@ -597,6 +597,86 @@ func init() {
 			return st
 		}
 		switch it.Mode {
+		case "long":
+			// one participant with a long history (it.Depth events), one with 40, a cache far smaller: per-participant
+			// listings from many starting points (through the store and straight from the database), live and after a
+			// reopen, against a slice; every stored event once, in order, no gaps
+			st := open()
+			ps := peers.NewPeerSet([]*peers.Peer{peers.NewPeer(sim.PubHex(0), "a0", "m0"), peers.NewPeer(sim.PubHex(1), "a1", "m1")})
+			if err := st.SetPeerSet(0, ps); err != nil {
+				ev.Fail("long: SetPeerSet: %v", err)
+			}
+			model := map[int][]string{}
+			topo := 0
+			add := func(p int) {
+				sp := ""
+				if l := model[p]; len(l) > 0 {
+					sp = l[len(l)-1]
+				}
+				e := hg.NewEvent(nil, nil, nil, []string{sp, ""}, sim.PubOf(p), len(model[p]))
+				e.Body.Timestamp = sim.BaseTime + int64(topo)
+				e.Sign(sim.Key(p))
+				e.VSetTopologicalIndex(topo)
+				topo++
+				if err := st.SetEvent(e); err != nil {
+					ev.Fail("long: SetEvent: %v", err)
+				}
+				model[p] = append(model[p], e.Hex())
+				res.Ops++
+			}
+			for i := 0; i < it.Depth; i++ {
+				add(0)
+				if i < 40 {
+					add(1)
+				}
+			}
+			compare := func(tag string, bs *hg.BadgerStore) {
+				for p := 0; p < 2; p++ {
+					want := model[p]
+					for _, skip := range []int{-1, 0, 1, 100, 511, 512, 513, 600, 1023, 1024, 1025, len(want) - 12, len(want) - 2} {
+						if skip >= len(want) || skip < -1 {
+							continue
+						}
+						for _, via := range []string{"store", "database"} {
+							var got []string
+							var err error
+							if via == "store" {
+								got, err = bs.ParticipantEvents(sim.PubHex(p), skip)
+							} else {
+								got, err = bs.VDbParticipantEvents(sim.PubHex(p), skip)
+							}
+							res.Reads++
+							if err != nil {
+								if via == "store" {
+									viol("long:listing-error", fmt.Sprintf("%s: ParticipantEvents(participant %d, skip %d) with %d stored events: %v", tag, p, skip, len(want), err), map[string]interface{}{"mode": "long"})
+								}
+								continue
+							}
+							exp := want[skip+1:]
+							ok := len(got) == len(exp)
+							for i := 0; ok && i < len(exp); i++ {
+								ok = got[i] == exp[i]
+							}
+							if !ok {
+								first := 0
+								for first < len(got) && first < len(exp) && got[first] == exp[first] {
+									first++
+								}
+								viol("long:listing-differs", fmt.Sprintf("%s: listing of participant %d from index %d read through the %s has %d entries, %d events are stored after that index; first difference at position %d", tag, p, skip+1, via, len(got), len(exp), first), map[string]interface{}{"mode": "long", "skip": skip})
+							}
+						}
+					}
+				}
+			}
+			compare("live", st)
+			st.Close()
+			st2, err := hg.NewBadgerStore(it.Cache, dir, false, quietBadger())
+			if err != nil {
+				ev.Fail("long: reopen: %v", err)
+			}
+			compare("after close + reopen", st2)
+			st2.Close()
+			res.Seqs++
 		case "live":
 			// a real node on a BadgerStore with the default cache (nothing is evicted): after every tenth step and at
 			// the end, the database copy of every event the node knows must be the persisted form of the object the
@@ -778,6 +858,7 @@ func init() {
 		for _, s := range []string{scStatic3, scJoin3, scLeave4, scSilent4, scSilent5, scLate4, scLaggards4, scLaggards7, scRejoin4, "slow:4:4:1:120"} {
 			items = append(items, StoreItem{Mode: "live", Source: s})
 		}
+		items = append(items, StoreItem{Mode: "long", Cache: 10, Depth: 1300}, StoreItem{Mode: "long", Cache: 100, Depth: 700})
 		nops := map[string]int{}
 		for _, s := range sources {
 			nops[s] = len(recordOps(s))
@@ -865,7 +946,7 @@ func init() {
 		cov["counters"] = tot.Ctr
 		cov["exhaustive"] = handed == len(items)
 		cov["samples"] = []interface{}{tot.Sample}
-		cov["rule"] = fmt.Sprintf("(a) the exact Store write sequences of node 0 in the static3 and join3to4 E1 seeds and of a joiner that fast-forwards (Reset from a frame, then a further validator-set change) (values snapshotted in persisted form at call time) replayed on a real BadgerStore with cache sizes 2,3,4,5,7,10,11,100,10000 (odd and even: the rolling windows halve themselves) against a map/list model, with the complete read battery (GetEvent + database copy, ParticipantEvents from several skips, ParticipantEvent for every index, LastEventFrom, KnownEvents, topological listing, rounds, blocks, frames, peer sets, repertoire, roots with their content) after writes, and close+reopen after every write position (one run per position, database-backed reads only); (c) real nodes on a BadgerStore in 10 histories with silent, lagging, leaving and re-joining participants: after every tenth step the database copy of every cached event must be the persisted form of the cached object; (b) all sequences of depth %d over the direct alphabet {event p0, event p1, update last event of p0, block 0 / block 1 with growing signatures, round update, frame, close+reopen} with cache 2. states = sequences + distinct direct operation strings", depth)
+		cov["rule"] = fmt.Sprintf("(a) the exact Store write sequences of node 0 in the static3 and join3to4 E1 seeds and of a joiner that fast-forwards (Reset from a frame, then a further validator-set change) (values snapshotted in persisted form at call time) replayed on a real BadgerStore with cache sizes 2,3,4,5,7,10,11,100,10000 (odd and even: the rolling windows halve themselves) against a map/list model, with the complete read battery (GetEvent + database copy, ParticipantEvents from several skips, ParticipantEvent for every index, LastEventFrom, KnownEvents, topological listing, rounds, blocks, frames, peer sets, repertoire, roots with their content) after writes, and close+reopen after every write position (one run per position, database-backed reads only); (d) a participant with 1300 (700) events behind a cache of 10 (100): listings from 13 starting points through the store and from the database, live and after reopen; (c) real nodes on a BadgerStore in 10 histories with silent, lagging, leaving and re-joining participants: after every tenth step the database copy of every cached event must be the persisted form of the cached object; (b) all sequences of depth %d over the direct alphabet {event p0, event p1, update last event of p0, block 0 / block 1 with growing signatures, round update, frame, close+reopen} with cache 2. states = sequences + distinct direct operation strings", depth)
 		rep.Assumptions = []string{"'value' = the persisted representation (body, signature, wire ids, topological index, coordinates); in-memory memo fields that MarshalDB omits by design are not compared", "after a reopen without bootstrap only database-backed reads are defined"}
 		return rep.Finish()
 	}
